@@ -227,7 +227,8 @@ def f32(x):
 def tone_ok(got, freq):
     want = math.floor(f32(freq) + 0.5)
     frac = (freq + 0.5) - math.floor(freq + 0.5)
-    return got == want or (min(frac, 1 - frac) < 1e-3 and abs(got - want) <= 1)
+    # the device computes the frequency in float32: near a .5 boundary (within a few float32 ulps of the frequency) either neighbour is right
+    return got == want or (min(frac, 1 - frac) < 1e-3 + 8e-7 * abs(freq) and abs(got - want) <= 1)
 
 
 def delay_ok(got, real):
